@@ -738,7 +738,7 @@ FIXED_DIRECT = [
 
 def s_bounded(ctx):
     r = ctx.fork("direct")
-    n = ctx.budget(1200, 12000)
+    n = ctx.budget(1200, 50000)
     cases = [(m, dict(c, dk="fixed"), v, s) for m, c, v, s in FIXED_DIRECT]
     for mech in REAL_MECHS + INT_MECHS:
         for i in range(n if mech != "LaplaceBoundedDomain" else n // 2):
@@ -919,7 +919,7 @@ FIXED_SEL = [
 
 def s_selection(ctx):
     r = ctx.fork("selection")
-    n = ctx.budget(1500, 15000)
+    n = ctx.budget(1500, 60000)
     for i in range(n):
         case = FIXED_SEL[i] if i < len(FIXED_SEL) else sel_case(r)
         v = sel_direct(case)
@@ -941,7 +941,7 @@ def _check(ctx):
     HANGS.clear()
     r = ctx.fork("k")
     lines, todo = [], []
-    n = ctx.budget(1200, 12000)
+    n = ctx.budget(1200, 50000)
     k_fold_truncate(ctx, r, n, lines, todo)
     k_laplace(ctx, r, "LaplaceTruncated", n, lines, todo)
     k_laplace(ctx, r, "LaplaceFolded", n, lines, todo)
